@@ -294,6 +294,8 @@ fn spin_hook() {
 }
 
 fn store_hook() {
+    // the observers every check relies on (per-store validation, lost-notification oracle) stay in place
+    crate::cq_queue::on_store_all();
     let d = DEV.with(|d| d.borrow().clone());
     if let Some(d) = d {
         if let Ok(mut d) = d.try_borrow_mut() {
@@ -1126,7 +1128,8 @@ pub fn run(ctx: &Ctx) -> (Vec<Case>, String, bool, BTreeMap<String, String>) {
     let mut cases = crate::runner::par_cases(ctx, "C15", "walk", n_honest, |i, id| one_case(ctx, "walk", i, id, false));
     cases.extend(crate::runner::par_cases(ctx, "C15", "hostile", n_hostile, |i, id| one_case(ctx, "hostile", i, id, true)));
     virtio_drivers::verif_hooks::set_spin_hook(None);
-    virtio_drivers::verif_hooks::set_store_hook(None);
+    // back to the default store observers (other streams of the same check run after this one)
+    crate::cq_queue::install_hooks();
     let stalls = cases.iter().filter(|c| c.tags.iter().any(|t| t.starts_with("observed:"))).count();
     let mut extra = BTreeMap::new();
     extra.insert(
